@@ -160,6 +160,9 @@ func watcherMapsAs(c *engine.Ctx, id, only string) {
 							strings.Contains(ls, ".Status.Proposed.Index") {
 							continue // the bounds of the range of proposals that are woken (from min(Applied, Committed)+1 to Proposed)
 						}
+						if l.L == "ok(recv(^eventCh))" {
+							continue // the channel is still open: no property of the event
+						}
 						if strings.Contains(l.String(), "recv(^eventCh)") {
 							o.Fail(&engine.Violation{Key: w.pkg + "." + w.recv + "|forwarding depends on the event", Pos: c.P.Pos(e.Pos), Func: w.recv + ".Start",
 								Msg: "the watcher forwards the id only under " + c.Render(l.String()) + ": store events of the other kinds no longer wake the reconciler (a reconciler that lost a write race returns quietly and waits for exactly such an event)"})
